@@ -377,6 +377,9 @@ def write_evidence(ctx, coverage, assumptions, violations):
       "violations": violations,
   }
   path = os.path.join(ROOT, "evidence", ctx.pid + ".json")
+  if os.path.realpath(os.environ.get("VERIF_REPO", "/repo")) != "/repo":
+    # a run against a scratch copy (seeded change): never overwrite the evidence of /repo itself
+    path = os.path.join(tempfile.gettempdir(), "verif_evidence_scratch_%s.json" % ctx.pid)
   tmp = path + ".tmp"
   with open(tmp, "w") as f:
     json.dump(ev, f, indent=1, sort_keys=True, default=str)
